@@ -68,6 +68,10 @@ func c15Corpus() map[string]string {
 		"func fact(n) { if n <= 1 { 1 } else { n * fact(n - 1) } }\nprintln(fact(5))\n",
 		"macro(x) { quote(unquote(x) + 1) }\n",
 		"a = [1,2,3][1:2]; b = a + [4]; c = len(b) == 2 && true || false\nprintln(a, b, c)\n",
+		// state carried from one statement to the next: macros defined before use, functions, closures, counters
+		"m = macro(a, b) { quote(unquote(a) * unquote(b) + 1) }\nx = 3\nprintln(m(x, 2))\nfunc f(n) { m(n, n) }\nprintln(f(4))\nx = x + 1\nprintln(m(x, x))\n",
+		"unless = macro(c, a, b) { quote(if !(unquote(c)) { unquote(a) } else { unquote(b) }) }\ny = 10\nprintln(unless(y > 5, \"small\", \"big\"))\ntw = macro(e) { quote(unquote(e) + unquote(e)) }\nprintln(tw(y), unless(tw(y) > 15, 1, 2))\n",
+		"cnt = 0\nfunc inc() { cnt = cnt + 1 }\ninc()\ninc()\nprintln(cnt)\nadd = (n) => (m) => n + m\nadd2 = add(2)\nprintln(add2(5))\nfor i = 0:3 { inc() }\nprintln(cnt)\n",
 	}
 	for i, g := range gen {
 		out[fmt.Sprintf("generated#%d", i)] = g
@@ -209,7 +213,7 @@ func TestVerifBoundedLineMode(t *testing.T) {
 		fmt.Printf("BOUNDED-KNOWN %s %s\n", id, m)
 	}
 	fmt.Printf("BOUNDED evaluations=%d distinct=%d exhaustive=false bound=%q\n", evals, evals,
-		fmt.Sprintf("%d programs (examples/*.gr, tests/*.gr, 10 generated): both modes on the whole text; every token-boundary prefix inside an unclosed bracket or after a binary operator; statement-by-statement sessions for tests/*.gr and the generated programs", len(corpus)))
+		fmt.Sprintf("%d programs (examples/*.gr, tests/*.gr, 13 generated): both modes on the whole text; every token-boundary prefix inside an unclosed bracket or after a binary operator; statement-by-statement sessions for tests/*.gr and the generated programs", len(corpus)))
 	if fails > 0 {
 		t.Fatalf("%d failures", fails)
 	}
